@@ -104,6 +104,18 @@ def canon_key(e, atoms):
     return e.sexpr()
 
 
+def _atom_name(atoms, idx):
+    for k, (i, t) in atoms.items():
+        if i == idx:
+            return t.sexpr()
+    return "?%d" % idx
+
+
+def _stable(text):
+    import hashlib
+    return hashlib.sha1(text.encode()).hexdigest()[:12]
+
+
 inv_of = {}        # atom index of inv(x) -> atom index of x
 _ctx = {"pairs": []}   # (sin index, cos index) pairs known while converting (set by decide)
 
@@ -183,13 +195,18 @@ def to_poly(e, atoms, limit=30000):
                     for v, e_ in m:
                         key = "inv!%d" % v
                         if key not in atoms:
-                            atoms[key] = (len(atoms), z3.Real("inv!%d!%d" % (v, len(atoms))))
+                            # the z3 name is a function of the inverted atom only, so the same
+                            # inverse gets the same constant in every conversion (terms built from
+                            # normal forms are converted again with a fresh atom table)
+                            atoms[key] = (len(atoms), z3.Real("inv!" + _stable(_atom_name(atoms, v))))
                             inv_of[atoms[key][0]] = v
                         r = r * Poly({((atoms[key][0], e_),): Fraction(1)})
                 else:
-                    key = "inv!poly!" + repr(sorted((mm, str(cc)) for mm, cc in den.t.items()))
+                    canon = repr(sorted((sorted((_atom_name(atoms, v), e_) for v, e_ in mm), str(cc))
+                                        for mm, cc in den.t.items()))
+                    key = "inv!poly!" + canon
                     if key not in atoms:
-                        atoms[key] = (len(atoms), z3.Real("invp!%d" % len(atoms)))
+                        atoms[key] = (len(atoms), z3.Real("invp!" + _stable(canon)))
                     r = r * Poly.var(atoms[key][0])
                 r = cancel_inverses(r)
             elif kind == z3.Z3_OP_TO_REAL:
